@@ -75,6 +75,12 @@ def build():
         add('once_block_spin', 'once_basic.c', ['caller_block', 'caller_spin', 'final_check'], R, ONCE_UNITS, nfinal=1, excl=ONLY_MU, extra=BIG, timeout=3000)
         add('once_spin_argspin', 'once_basic.c', ['caller_spin', 'caller_arg_spin', 'final_check'], R, ONCE_UNITS, nfinal=1, excl=ONLY_MU, extra=BIG, timeout=3000)
         add('once_nested_block', 'once_basic.c', ['caller_nested', 'caller_block', 'final_check'], R, ONCE_UNITS, nfinal=1, excl=ONLY_MU, extra=BIG, timeout=6000)
+        add('once_nested_block_u2', 'once_basic.c', ['caller_nested', 'caller_block', 'final_check'], R, ONCE_UNITS, nfinal=1, excl=ONLY_MU, extra=BIG, timeout=6000, unroll={'*': 2})
+        add('oncep_nested_block', 'once_basic.c', ['caller_nested', 'caller_block', 'final_check'], R, ONCE_UNITS, nfinal=1, excl=ONLY_MU, timeout=6000,
+            extra=dict(BIG, prune_calls=[['nsync_mu_lock', 'nsync_waiter_new_'], ['nsync_mu_rlock', 'nsync_waiter_new_']]))
+        add('oncep_nested_block_w', 'once_basic.c', ['caller_nested', 'caller_block', 'final_check'], R - 1, ONCE_UNITS, nfinal=1, excl=ONLY_MU, timeout=6000,
+            extra=dict(BIG, prune_calls=[['nsync_mu_lock', 'nsync_waiter_new_'], ['nsync_mu_rlock', 'nsync_waiter_new_']]),
+            unroll={'*': 1, 'nsync_cv_broadcast': 2, 'wake_waiters': 2, 'nsync_mu_unlock_slow_': 2, 'nsync_cv_wait_with_deadline_generic': 2, 'nsync_mu_lock_slow_': 2})
         add('once_nested', 'once_basic.c', ['caller_nested', 'caller_nested', 'final_check_b'], R, ONCE_UNITS, nfinal=1, excl=ONLY_MU, extra=BIG, timeout=6000)
         add('once_arg_twice', 'once_basic.c', ['caller_arg', 'caller_twice', 'final_check'], R, ONCE_UNITS, nfinal=1, excl=ONLY_MU, extra=BIG, timeout=3000)
         add('once_block_block_other', 'once_basic.c', ['caller_block', 'caller_block', 'caller_other', 'final_check_b'], R, ONCE_UNITS, nfinal=1, excl=ONLY_MU, extra=BIG, timeout=6000)
@@ -85,11 +91,20 @@ def build():
         add('ctr_dec2_timed', 'counter_basic.c', ['dec_twice', 'waiter_timed', 'setup', 'final_check'], R, CV_UNITS, ninit=1, nfinal=1, pools=dict(CTR), excl=NOTE_FN + CVW_FN, timeout=3000)
         add('ctr_passive_timed_dec', 'counter_basic.c', ['waiter_timed1', 'dec_once', 'setup_passive', 'final_passive'], R, CV_UNITS, ninit=1, nfinal=1, pools=dict(CTR), excl=NOTE_FN + CVW_FN, timeout=3000,
             unroll={'*': 1, 'nsync_wait_n': 2, 'nsync_counter_add': 3})
+        add('ctr_dec2_timed_u2', 'counter_basic.c', ['dec_twice', 'waiter_timed', 'setup', 'final_check'], R, CV_UNITS, ninit=1, nfinal=1, pools=dict(CTR), excl=NOTE_FN + CVW_FN, timeout=6000,
+            unroll={'*': 1, 'nsync_wait_n': 2, 'nsync_counter_add': 2})
         add('ctr_dec_dec_wait', 'counter_basic.c', ['dec', 'dec', 'waiter', 'setup', 'final_check'], R, CV_UNITS, ninit=1, nfinal=1, pools=dict(CTR), excl=NOTE_FN + CVW_FN, timeout=6000)
         add('ctr_dec_dec_timed', 'counter_basic.c', ['dec', 'dec', 'waiter_timed', 'setup', 'final_check'], R, CV_UNITS, ninit=1, nfinal=1, pools=dict(CTR), excl=NOTE_FN + CVW_FN, timeout=6000)
         add('ctr_dec_dec_reader', 'counter_basic.c', ['dec', 'dec', 'reader', 'setup', 'final_check'], R, CV_UNITS, ninit=1, nfinal=1, pools=dict(CTR), excl=NOTE_FN + CVW_FN, timeout=6000)
         add('ctr_dec_dec_late', 'counter_basic.c', ['dec', 'dec', 'late_waiter', 'setup', 'final_check'], R, CV_UNITS, ninit=1, nfinal=1, pools=dict(CTR), excl=NOTE_FN + CVW_FN, timeout=6000)
     # ---- notes
+    # contended mutex paths pruned (see NOTEP below): small programs; the waiter comes first so that two rounds already cover "waiter blocks, decrementers run, waiter times out, sweep continues"
+    MUPRUNE = {'prune_fns': ['nsync_mu_lock_slow_', 'nsync_mu_unlock_slow_'], 'prune_calls': [['nsync_mu_lock', 'nsync_waiter_new_'], ['nsync_mu_rlock', 'nsync_waiter_new_']]}
+    for R in (2, 3):
+        add('ctrp_timed_dec2', 'counter_basic.c', ['waiter_timed', 'dec_twice', 'setup', 'final_check'], R, CV_UNITS, ninit=1, nfinal=1, pools=dict(CTR), excl=NOTE_FN + CVW_FN, timeout=6000,
+            extra=MUPRUNE, unroll={'*': 1, 'nsync_wait_n': 2, 'nsync_counter_add': 2})
+        add('ctrp_wait_dec2', 'counter_basic.c', ['waiter', 'dec_twice', 'setup', 'final_check'], R, CV_UNITS, ninit=1, nfinal=1, pools=dict(CTR), excl=NOTE_FN + CVW_FN, timeout=6000,
+            extra=MUPRUNE, unroll={'*': 1, 'nsync_wait_n': 2, 'nsync_counter_add': 2})
     NOTE = {'note': {'type': 'struct.nsync_note_s_', 'count': 4}}
     # notes without deadlines: the lazy-expiry notify inside nsync_note_notified_deadline_ is asserted unreachable (and the clock is frozen)
     NOEXP = {'exclude_calls': [['nsync_note_notified_deadline_', 'notify']], 'max_rec': 3}
@@ -101,6 +116,30 @@ def build():
         add('note_newunderroot_notifyroot', 'note_basic.c', ['new_under_root', 'notify_root', 'setup_pair', 'final_new_child_notified'], R, CV_UNITS, ninit=1, nfinal=1, pools=dict(NOTE), extra=NOEXP, defines=['VF_FROZEN_CLOCK'], excl=CTR_FN + CVW_FN, timeout=6000)
         add('note_freechild_notifyroot', 'note_basic.c', ['free_child', 'notify_root', 'setup_tree', 'final_after_free_child'], R, CV_UNITS, ninit=1, nfinal=1, optional=True, pools=dict(NOTE), extra=NOEXP, defines=['VF_FROZEN_CLOCK'], excl=CTR_FN + CVW_FN, timeout=6000)
         add('note_freegrand_freechild', 'note_basic.c', ['free_grand', 'free_child', 'setup_tree', 'final_siblings'], R, CV_UNITS, ninit=1, nfinal=1, pools=dict(NOTE), extra=NOEXP, defines=['VF_FROZEN_CLOCK'], excl=CTR_FN + CVW_FN, timeout=6000)
+    # notes with the CONTENDED mutex paths pruned: only schedules in which no thread finds a note mutex held are explored (bound, stated);
+    # this keeps the programs small enough, and the windows of the C08 / C13 seeds need no contention
+    NOTEP = dict(NOEXP); NOTEP['prune_fns'] = ['nsync_mu_lock_slow_', 'nsync_mu_unlock_slow_']; NOTEP['max_rec'] = 2
+    NOTEP['prune_calls'] = [['nsync_mu_lock', 'nsync_waiter_new_'], ['nsync_mu_rlock', 'nsync_waiter_new_']]
+    NPU = {'*': 1, 'nsync_wait_n': 2, 'note_notify_child': 2}
+    for R in (2, 3):
+        add('notep_newunderroot_notifyroot', 'note_basic.c', ['new_under_root', 'notify_root', 'setup_pair', 'final_new_child_notified'], R, CV_UNITS, ninit=1, nfinal=1, pools=dict(NOTE), extra=NOTEP,
+            excl=CTR_FN + CVW_FN, unroll=NPU, defines=['VF_FROZEN_CLOCK'], timeout=6000)
+        add('notep_waitchildtimed_notifyroot', 'note_basic.c', ['wait_child_timed', 'notify_root', 'setup_pair', 'final_pair_notified'], R, CV_UNITS, ninit=1, nfinal=1, pools=dict(NOTE), extra=NOTEP,
+            excl=CTR_FN + CVW_FN, unroll=NPU, timeout=6000)
+        add('notep_waitchildtimedF_notifyroot', 'note_basic.c', ['wait_child_timed', 'notify_root', 'setup_pair', 'final_pair_notified'], R, CV_UNITS, ninit=1, nfinal=1, pools=dict(NOTE), extra=NOTEP,
+            excl=CTR_FN + CVW_FN, unroll=NPU, defines=['VF_FROZEN_CLOCK'], timeout=6000)
+        add('notep_waitchildlean_notifyroot', 'note_basic.c', ['wait_child_timed_lean', 'notify_root_only', 'setup_pair', 'final_nothing'], R, CV_UNITS, ninit=1, nfinal=1, pools=dict(NOTE), extra=NOTEP,
+            excl=CTR_FN + CVW_FN, unroll=NPU, defines=['VF_FROZEN_CLOCK'], timeout=6000)
+        add('notep_waitrootlean_notifyroot', 'note_basic.c', ['wait_root_timed_lean', 'notify_root_only', 'setup_single', 'final_nothing'], R, CV_UNITS, ninit=1, nfinal=1, pools=dict(NOTE),
+            extra=dict(NOTEP, max_rec=1), excl=CTR_FN + CVW_FN, unroll=NPU, defines=['VF_FROZEN_CLOCK'], timeout=6000)
+        add('notep_notifyroot_pollchild', 'note_basic.c', ['notify_root', 'poll_child', 'setup_pair', 'final_pair_notified'], R, CV_UNITS, ninit=1, nfinal=1, pools=dict(NOTE), extra=NOTEP,
+            excl=CTR_FN + CVW_FN, unroll=NPU, defines=['VF_FROZEN_CLOCK'], timeout=6000)
+        add('notep_freechild_notifyroot', 'note_basic.c', ['free_child', 'notify_root', 'setup_tree', 'final_after_free_child'], R, CV_UNITS, ninit=1, nfinal=1, pools=dict(NOTE), extra=NOTEP,
+            excl=CTR_FN + CVW_FN, unroll=NPU, defines=['VF_FROZEN_CLOCK'], timeout=6000)
+        add('notep_freeroot_freechild', 'note_basic.c', ['free_root', 'free_child', 'setup_pair', 'final_nothing'], R, CV_UNITS, ninit=1, nfinal=1, pools=dict(NOTE), extra=NOTEP,
+            excl=CTR_FN + CVW_FN, unroll={'*': 1, 'nsync_note_free': 2}, defines=['VF_FROZEN_CLOCK'], timeout=6000)
+        add('notep_freechild_freegrand', 'note_basic.c', ['free_child', 'free_grand', 'setup_tree', 'final_siblings'], R, CV_UNITS, ninit=1, nfinal=1, pools=dict(NOTE), extra=NOTEP,
+            excl=CTR_FN + CVW_FN, unroll={'*': 1, 'nsync_note_free': 2}, defines=['VF_FROZEN_CLOCK'], timeout=6000)
     # ---- wait_n
     WN = {'note': {'type': 'struct.nsync_note_s_', 'count': 1}, 'counter': {'type': 'struct.nsync_counter_s_', 'count': 1},
           'nwarr': {'type': 'struct.nsync_waiter_s', 'array': 5, 'count': 1}}
